@@ -167,7 +167,7 @@ pub struct Generated {
 const CAP_NAMES: &[&str] = &["x", "y", "n", "m", "xs", "a", "b", "item", "some_x", "none-y"];
 const LOCAL_NAMES: &[&str] = &["v", "w", "cur", "acc", "tmp", "something", "none_left", "format", "in_x", "letter", "node-id", "k"];
 const ATTR_NAMES: &[&str] = &["a", "b", "c", "kind", "name", "idx", "flag", "x-y", "text", "n"];
-const STRS: &[&str] = &["", "a", "b", "ab", "foo/bar.py", "x{}y", "é", "a b", "{{}}", "$1"];
+const STRS: &[&str] = &["", "a", "b", "ab", "foo/bar.py", "x{}y", "é", "a b", "{{}}", "$1", "two\nlines", "tab\tquote\"back\\slash"];
 const SCAN_SUBJECTS: &[&str] = &["ab/ba.py", "aab", "foo/bar.py", "abab", "xa1é2", "a/b/c.py", "é", "a", "b12"];
 pub const REGEXES: &[&str] = &["a", "[ab]+", "b|ab", "(a)(b)?", "[^/]+/", "([a-z]+)\\.py$", "é", ".", "(x)|(a)", "a+b*", "\\d+", "(?:ab)+", "b$", "(x)?([ab])", "([0-9]+)|([a-z]+)", "(a)(/)?(b)?", "\\b", "\\b[a-z]*"];
 
@@ -512,7 +512,13 @@ impl<'t, 'b> G<'t, 'b> {
                 }
                 3 => {
                     let n = self.t.choose(4);
-                    let args = (0..n).map(|_| self.expr(&Ty::Bool, need_local, depth + 1)).collect();
+                    let mut args: Vec<Expr> = (0..n).map(|_| self.expr(&Ty::Bool, need_local, depth + 1)).collect();
+                    // risky: a last argument that is not a boolean (every argument is checked,
+                    // whatever the ones before it say)
+                    if self.risky() {
+                        args.push(if self.t.chance(1, 2) { Expr::Int(1, 0) } else { Expr::Str("x".into()) });
+                        self.features.insert("non-boolean-argument-of-and-or");
+                    }
                     Expr::Call { func: if self.t.chance(1, 2) { "and".into() } else { "or".into() }, args }
                 }
                 4 => {
@@ -1292,7 +1298,16 @@ impl<'t, 'b> G<'t, 'b> {
         let mutable = !node_stmt && !self.cfg.fragment && self.t.chance(1, 4);
         // the scope may be written through an immutable local that holds the capture
         let aliases: Vec<String> = self.visible().into_iter().filter(|l| l.alias_of.as_deref() == Some(cap.name.as_str())).map(|l| l.name).collect();
-        let cap_expr = if !aliases.is_empty() && self.t.chance(1, 2) {
+        // ... or through a syntax node stored in another scoped variable (`node @a.ref.n`): which
+        // node that is, is not tracked, so the new variable is never read back
+        let links: Vec<Expr> = if !reuse && top && self.t.chance(1, 4) { self.scoped_reads(&Ty::Syn) } else { vec![] };
+        let through_link = !links.is_empty();
+        let coverage = if through_link { Coverage::Exact { stanza: usize::MAX, cap: cap.name.clone() } } else { coverage };
+        let cap_expr = if through_link {
+            self.features.insert("scoped-def-through-stored-node");
+            let e = links[self.t.choose(links.len())].clone();
+            self.finish_scoped(e)
+        } else if !aliases.is_empty() && self.t.chance(1, 2) {
             self.features.insert("scoped-def-through-local");
             let name = aliases[self.t.choose(aliases.len())].clone();
             Expr::Var { id: self.id(), name }
@@ -1494,6 +1509,25 @@ impl<'t, 'b> G<'t, 'b> {
                     self.fault_pair = Some((a.id(), b.id()));
                     body.push(a);
                     if self.t.chance(1, 2) {
+                        // the same name on another node in between (the two conflicting
+                        // definitions are then not adjacent among the definitions of the name)
+                        if let Some((other_scope, _)) = self.syn_expr(false) {
+                            if crate::interp::expr_text(&other_scope) != crate::interp::expr_text(&scope) {
+                                let n2 = match &body[body.len() - 1] {
+                                    Stmt::Let { var: VarRef::Scoped { name, .. }, .. } => name.clone(),
+                                    _ => String::new(),
+                                };
+                                if !n2.is_empty() {
+                                    body.push(Stmt::Let { id: self.id(), var: VarRef::Scoped { id: self.id(), scope: other_scope, name: n2 }, value: Expr::Int(3, 0) });
+                                    self.features.insert("duplicate-with-another-node-in-between");
+                                    // the other expression may well evaluate to the same node:
+                                    // which two definitions clash first is then not known here
+                                    self.fault_pair = None;
+                                }
+                            }
+                        }
+                    }
+                    if self.t.chance(1, 2) {
                         // an unrelated definition on the same node in between
                         let scope3 = self.reid(scope);
                         let other = self.fresh_name("dupmid");
@@ -1558,6 +1592,8 @@ impl<'t, 'b> G<'t, 'b> {
                     Stmt::AttrNode { id, node: target, attrs: vec![Attr { name: sh, value: Some(Expr::Int(1, 0)) }] }
                 }
             }
+            // the failing value sits in a print argument: lazy evaluation reaches it last
+            "type-in-print" => Stmt::Print { id, values: vec![Expr::Str("p".into()), Expr::Call { func: "plus".into(), args: vec![Expr::Str("a".into()), Expr::Int(1, 0)] }] },
             "overflow" => Stmt::Let { id, var: VarRef::Plain { id: self.id(), name: self.fresh_name("flt") }, value: Expr::Call { func: "plus".into(), args: vec![Expr::Int(4294967295, 0), Expr::Int(1, 0)] } },
             _ => Stmt::Let { id, var: VarRef::Plain { id: self.id(), name: self.fresh_name("flt") }, value: Expr::Call { func: "not".into(), args: vec![Expr::Int(1, 0)] } },
         }
@@ -1659,6 +1695,7 @@ pub const FAULTS: &[&str] = &[
     "type-in-list",
     "shorthand-free-variable",
     "edge-attr-conflict",
+    "type-in-print",
 ];
 
 // ------------------------------------------------------------------------------------------------
@@ -1774,7 +1811,13 @@ impl<'t, 'b> G<'t, 'b> {
     fn shorthand(&mut self, idx: usize) -> Item {
         let name = format!("sh{}", idx);
         let arg = [Ty::Str, Ty::Int, Ty::Bool][self.t.choose(3)].clone();
-        let var = ["val", "v", "something"][self.t.choose(3)].to_string();
+        let mut var = ["val", "v", "something"][self.t.choose(3)].to_string();
+        // risky: a parameter named like a declared global (the checker does not look into
+        // shorthands; using the shorthand fails at run time)
+        if !self.globals.is_empty() && self.risky() {
+            var = self.globals[self.t.choose(self.globals.len())].name.clone();
+            self.features.insert("shorthand-parameter-named-like-a-global");
+        }
         let var_id = self.id();
         let id = self.id();
         self.in_shorthand_body = true;
